@@ -1064,6 +1064,9 @@ class Interp:
             a = int(a)
         if isinstance(b, np.integer) and isinstance(a, (SInt, SU64)):
             b = int(b)
+        if isinstance(op, (ast.Eq, ast.NotEq)) and (type(a).__name__ == "SArr" or type(b).__name__ == "SArr"):
+            arr, other = (a, b) if type(a).__name__ == "SArr" else (b, a)
+            return (arr == other) if isinstance(op, ast.Eq) else (arr != other)
         if isinstance(op, (ast.Eq, ast.NotEq)) and (isinstance(a, (list, tuple)) or isinstance(b, (list, tuple))):
             r = self.seq_eq(a, b)
             if isinstance(op, ast.NotEq):
